@@ -6,7 +6,7 @@ Strategy: build an operation list that follows the protocol of the real callers
 (TransformStream::write: init_with / append / shift, Stack: push / drain) with a small reference
 simulation under an infinite limit, record every usage level the run goes through, then choose the
 limit M at / next to one of those levels (boundary bias), or 0, or far above, or usize::MAX.
-A malformed stream adds prealloc > M / prealloc > isize::MAX (preallocation dropped), out-of-range shift/drain (caller contract
+A malformed stream adds prealloc > M (preallocation clamped to M) / > isize::MAX (dropped), out-of-range shift/drain (caller contract
 violations = panics on both sides) and unparsable tokens.
 """
 
@@ -138,9 +138,9 @@ def gen_ops(rng, tier, prealloc, isz, malformed):
 def repair(rng, toks, M, prealloc, isz):
     """Replay under the real limit M (failed charges stay) and clamp shift/drain arguments that the
     failures made out of range, so that the run keeps going after an error."""
-    # a preallocation that does not fit the limit (or isize::MAX) is dropped by Arena::new
-    fits = prealloc <= M and prealloc <= ISIZE_MAX
-    usage, acap, alen, vcap, vlen = (prealloc, prealloc, 0, 0, 0) if fits else (0, 0, 0, 0, 0)
+    # Arena::new clamps the preallocation to the limit; above isize::MAX the reservation is dropped
+    size = min(prealloc, M)
+    usage, acap, alen, vcap, vlen = (size, size, 0, 0, 0) if size <= ISIZE_MAX else (0, 0, 0, 0, 0)
     out = []
     for t in toks:
         c, arg = t[0], (int(t[1:]) if len(t) > 1 else 1)
@@ -209,9 +209,11 @@ def one(rng, tier):
     if malformed and rng.random() < 0.12:
         # reservation larger than isize::MAX: the charge may pass, try_reserve_exact cannot
         prealloc = rng.choice([ISIZE_MAX + 1, USIZE_MAX, ISIZE_MAX + 12345])
-        M = rng.choice([USIZE_MAX, USIZE_MAX, ISIZE_MAX, prealloc])
+        # (a limit in [2^40, isize::MAX] would make the clamped reservation a real multi-terabyte
+        #  allocation, whose failure is outside the model: "the allocator does not fail")
+        M = rng.choice([USIZE_MAX, USIZE_MAX, ISIZE_MAX + 1, prealloc, rng.randrange(0, 5000)])
     elif malformed and rng.random() < 0.5 and prealloc > 0:
-        M = rng.randrange(0, prealloc)  # preallocation does not fit: dropped (was finding F5)
+        M = rng.randrange(0, prealloc)  # preallocation does not fit: clamped to M (was finding F5)
     elif M < prealloc and rng.random() < 0.7:
         M = prealloc  # keep most cases inside the theorem's hypothesis
     if not malformed or rng.random() < 0.7:
